@@ -160,7 +160,8 @@ def slices(quick: bool) -> list[dict]:
             scales=[S1, S2, S3, SMIS] + SBAD, units=UNITS + ["pc"], rw=[(NONE, NONE), (1, NONE), (1, 20), (2, 50)],
             cosmos=["omitted", "WMAP9", "custom"])),
         make_slice("modify-generated", dict(
-            methods=["linear", "comoving"] if quick else ["linear", "comoving", "logspace"], cosmos=["omitted", "WMAP9"],
+            methods=["linear", "comoving"] if quick else ["linear", "comoving", "logspace"],
+            cosmos=["omitted", "WMAP9"] if quick else ["omitted", "WMAP9", "anon"],
             scales=[S1] if quick else [S1, S2], closeds=["right"] if quick else ["right", "left"]),
             dsmall if quick else dfull, maxmods=1, maxdelta=2, workers=4),
         make_slice("modify-logspace", dict(methods=["logspace"], cosmos=["s:WMAP9"], closeds=["left"], scales=[S2], units=["arcmin"]),
@@ -537,6 +538,8 @@ class Replayer:
         else:
             s = f"binning={to}"
         if to == "comoving" and cosmo:
+            if d.get("zmin", parent_obj[7] if parent_obj and frm != "custom" else NONE) == 0:
+                s += ",zmin=0"
             if "cosmo" in d:
                 s += f",cosmology=->{cosmo_class(d['cosmo'])}"
             else:
